@@ -16,9 +16,14 @@ VARIABLE l
 Ev == Rec[l]
 
 AsSet3(s) == {<<s[i][1], s[i][2], s[i][3]>> : i \in 1..Len(s)}
+\* "no duplicates": a reference that neither input holds twice is not held twice by the result (member lists of
+\* GROUPs and FUNCTIONs that are united by name)
+Count(s, x) == Cardinality({i \in 1..Len(s) : s[i] = x})
+NoDup(s) == \A i \in 1..Len(s) : Count(s, s[i]) = 1
+NoNewDuplicates(A, B, R) == Chk("NoDuplicateMembers", (NoDup(A.refs) /\ NoDup(B.refs)) => NoDup(R.refs))
 Verdict(ev) ==
     CASE ev.ev = "merge" ->
-            /\ ("C08" \in Judge => MergeOK(ev.A, ev.B, ev.R))
+            /\ ("C08" \in Judge => MergeOK(ev.A, ev.B, ev.R) /\ NoNewDuplicates(ev.A, ev.B, ev.R))
             /\ ("C09" \in Judge => RefsFollow(ev.A, ev.B, ev.R))
       [] ev.ev = "cleanup" ->
             /\ CleanupOK(ev.G, ev.R)
